@@ -161,6 +161,35 @@ Section MemoProofs.
         apply m_lookup_none_notin in El. apply El. destruct Hok as (Hk & _). rewrite Hk. auto.
       * rewrite app_length. cbn [length]. lia.
   Qed.
+  (* weaker premise: the wrapped function may also raise for reasons outside g (a report raised in
+     strict mode); whatever it RETURNS is g's value.  Then the cache still holds only g's values. *)
+  Lemma memo_call_weak (I : S -> Prop) cap (f : K -> S -> S * res V) :
+    0 < cap ->
+    (forall k s, I s -> I (fst (f k s)) /\ (forall v, snd (f k s) = Ok v -> g k = Ok v)) ->
+    forall k m s, memo_ok cap m -> valid m -> I s ->
+    let r := memo_call keqb cap f k (m, s) in
+    memo_ok cap (fst (fst r)) /\ valid (fst (fst r)) /\ I (snd (fst r)) /\ (forall v, snd r = Ok v -> g k = Ok v).
+  Proof.
+    intros Hcap Hf k m s Hok Hv HI. cbv zeta.
+    pose proof (memo_call_inv cap f k m s Hcap Hok) as Hinv. cbv zeta in Hinv.
+    destruct Hinv as (Hok' & [(v & Hl & Hr) | (Hl & Hr & Hs)]).
+    - rewrite Hr. cbn [fst snd]. repeat split; auto; try apply Hok.
+      intros v0 H0. inversion H0; subst. apply Hv; auto.
+    - destruct (Hf k s HI) as (HI' & Hg). split; auto. split; [|split].
+      + (* validity: unfold once more *)
+        unfold memo_call. rewrite Hl.
+        destruct (evict_ok cap m Hcap Hok) as (m1 & Eev & H1 & H2 & H3 & H4 & H5). rewrite Eev.
+        assert (Hv1 : valid m1) by (intros k0 v0 Hl0; apply Hv; auto).
+        destruct (f k s) as [s' r] eqn:Ef. cbn [fst snd] in *.
+        destruct r; cbn [fst snd]; auto.
+        intros k0 v0. cbn [memory]. rewrite m_lookup_app_notin.
+        destruct (m_lookup keqb k0 (memory m1)) eqn:E1.
+        * intro H; inversion H; subst. apply Hv1; auto.
+        * cbn [m_lookup]. destruct (keqb k0 k) eqn:E2; [|discriminate].
+          apply keqb_eq in E2. subst. intro H; inversion H; subst. apply Hg; reflexivity.
+      + rewrite Hs. auto.
+      + rewrite Hr. auto.
+  Qed.
 End MemoProofs.
 
 (* ------------------------------------------------------------------------------------- *)
@@ -498,3 +527,207 @@ Lemma value_refuted_lemma :
   exists cap fmt cos c o, 0 < cap /\
     o_val (snd (step cap fmt (final cap fmt G0 cos) (c, o))) <> o_val (snd (step cap fmt G0 (c, o))).
 Proof. exists 1024, noisy_fmt, [(true, probe_name)], false, probe_name. split; [lia|]. vm_compute. discriminate. Qed.
+
+(* ------------------------------------------------------------------------------------- *)
+(* the same without any assumption on the name formatter: the caches only ever hold correct values,
+   and inside errors.capture() the VALUE of format.name$ is history independent (F19 is about the
+   reports, and about strict mode, only) *)
+Definition split_ok (cap : nat) (s : memo str (list str) * errs) : Prop :=
+  memo_ok cap (fst s) /\ valid str_eqb split_name_list (fst s).
+
+Lemma split_call_any cap names ms e : 0 < cap -> memo_ok cap ms -> valid str_eqb split_name_list ms ->
+  let r := memo_call str_eqb cap split_names_f names (ms, e) in
+  snd r = split_name_list names /\ memo_ok cap (fst (fst r)) /\ valid str_eqb split_name_list (fst (fst r)) /\ snd (fst r) = e.
+Proof.
+  intros Hcap Hok Hv.
+  exact (memo_call_spec str_eqb str_eqb_eq split_name_list (fun e' => e' = e) cap split_names_f Hcap
+           (fun k s H => conj H eq_refl) names ms e Hok Hv eq_refl).
+Qed.
+
+Lemma format_name_f_any cap fmt : 0 < cap -> forall k s, split_ok cap s ->
+  split_ok cap (fst (format_name_f cap fmt k s)) /\
+  (forall v, snd (format_name_f cap fmt k s) = Ok v -> pure_fmt fmt k = Ok v).
+Proof.
+  intros Hcap [[names n] format] [ms e] (Hok & Hv). cbn [fst snd] in *.
+  unfold format_name_f, pure_fmt.
+  pose proof (split_call_any cap names ms e Hcap Hok Hv) as Hs. cbv zeta in Hs.
+  destruct (memo_call str_eqb cap split_names_f names (ms, e)) as [[ms1 e1] r]. cbn [fst snd] in Hs.
+  destruct Hs as (Hr & Hok1 & Hv1 & He1). subst e1 r. unfold split_ok.
+  destruct (split_name_list names) as [sp|c l| |]; cbn [lift_res fst snd].
+  2: { split; [split; assumption|]. intros v H; exact H. }
+  2: { split; [split; assumption|]. intros v H; exact H. }
+  2: { split; [split; assumption|]. intros v H; exact H. }
+  destruct (Z.leb 1 n && Z.leb n (Z.of_nat (length sp)))%bool; [|split; [split; assumption|intros v H; discriminate H]].
+  destruct (fmt (nth (Z.to_nat (n - 1)) sp []) format) as [reps v]. cbn [fst snd].
+  destruct (report_all reps e) as [e1 u]. destruct u as [[]| | |]; cbn [lift_res fst snd];
+    (split; [split; assumption|]); auto; intros v0 H; discriminate H.
+Qed.
+
+(* inside capture() every report is stored and none raises *)
+Lemma report_all_captured xs : forall e, (exists l, e_captured e = Some l) ->
+  snd (report_all xs e) = Ok tt /\ exists l', e_captured (fst (report_all xs e)) = Some l'.
+Proof.
+  induction xs as [|x r IH]; intros e [l Hl]; cbn [report_all fst snd]; [eauto|].
+  unfold report_error. rewrite Hl. cbn [fst snd]. apply IH. cbn [e_captured]. eauto.
+Qed.
+
+Lemma format_name_f_captured cap fmt : 0 < cap -> forall k ms e, split_ok cap (ms, e) ->
+  (exists l, e_captured e = Some l) -> snd (format_name_f cap fmt k (ms, e)) = pure_fmt fmt k.
+Proof.
+  intros Hcap [[names n] format] ms e (Hok & Hv) Hc. cbn [fst snd] in *.
+  unfold format_name_f, pure_fmt.
+  pose proof (split_call_any cap names ms e Hcap Hok Hv) as Hs. cbv zeta in Hs.
+  destruct (memo_call str_eqb cap split_names_f names (ms, e)) as [[ms1 e1] r]. cbn [fst snd] in Hs.
+  destruct Hs as (Hr & Hok1 & Hv1 & He1). subst e1 r.
+  destruct (split_name_list names) as [split| | |]; cbn [lift_res fst snd]; auto.
+  destruct (Z.leb 1 n && Z.leb n (Z.of_nat (length split)))%bool; auto.
+  destruct (fmt (nth (Z.to_nat (n - 1)) split []) format) as [reps v]. cbn [fst snd].
+  destruct (report_all_captured reps e Hc) as (Hu & _).
+  destruct (report_all reps e) as [e1 u]. cbn [snd] in Hu. subst u. reflexivity.
+Qed.
+
+Definition caches_ok (cap : nat) (fmt : fmt_fun) (g : G) : Prop :=
+  memo_ok cap (g_ms g) /\ valid str_eqb split_name_list (g_ms g) /\
+  memo_ok cap (g_mf g) /\ valid nkey_eqb (pure_fmt fmt) (g_mf g).
+
+Lemma format_call_any cap fmt k mf ms e : 0 < cap ->
+  memo_ok cap ms -> valid str_eqb split_name_list ms -> memo_ok cap mf -> valid nkey_eqb (pure_fmt fmt) mf ->
+  let r := memo_call nkey_eqb cap (format_name_f cap fmt) k (mf, (ms, e)) in
+  memo_ok cap (fst (fst r)) /\ valid nkey_eqb (pure_fmt fmt) (fst (fst r)) /\ split_ok cap (snd (fst r)) /\
+  (forall v, snd r = Ok v -> pure_fmt fmt k = Ok v).
+Proof.
+  intros Hcap H1 H2 H3 H4.
+  apply (memo_call_weak nkey_eqb nkey_eqb_eq (pure_fmt fmt) (split_ok cap) cap (format_name_f cap fmt) Hcap); auto.
+  - intros k0 s Hs. apply format_name_f_any; auto.
+  - split; auto.
+Qed.
+
+Lemma bst_calls_any cap fmt : 0 < cap -> forall ks mf ms e,
+  memo_ok cap ms -> valid str_eqb split_name_list ms -> memo_ok cap mf -> valid nkey_eqb (pure_fmt fmt) mf ->
+  let r := bst_calls cap fmt ks (mf, (ms, e)) in
+  memo_ok cap (fst (fst r)) /\ valid nkey_eqb (pure_fmt fmt) (fst (fst r)) /\ split_ok cap (snd (fst r)).
+Proof.
+  intros Hcap. induction ks as [|k r IH]; intros mf ms e H1 H2 H3 H4; cbv zeta; cbn [bst_calls fst snd].
+  - unfold split_ok; cbn [fst snd]; auto.
+  - pose proof (format_call_any cap fmt k mf ms e Hcap H1 H2 H3 H4) as Hc. cbv zeta in Hc.
+    destruct (memo_call nkey_eqb cap (format_name_f cap fmt) k (mf, (ms, e))) as [[mf1 [ms1 e1]] v].
+    cbn [fst snd] in Hc. destruct Hc as (Hc1 & Hc2 & (Hc3 & Hc4) & _). cbn [fst snd] in *.
+    destruct v as [s| | |]; cbn [lift_res fst snd]; try (unfold split_ok; cbn [fst snd]; auto; fail).
+    specialize (IH mf1 ms1 e1 Hc3 Hc4 Hc1 Hc2). cbv zeta in IH.
+    destruct (bst_calls cap fmt r (mf1, (ms1, e1))) as [[mf2 [ms2 e2]] rr]. cbn [fst snd] in *.
+    destruct rr; cbn [lift_res fst snd]; auto.
+Qed.
+
+Lemma exec_caches_ok cap fmt g o : 0 < cap -> caches_ok cap fmt g -> caches_ok cap fmt (fst (exec cap fmt g o)).
+Proof.
+  intros Hcap (H1 & H2 & H3 & H4). unfold caches_ok.
+  destruct o as [m|r file|m files|src file|names n format|calls|b]; cbn [exec].
+  - unfold new_reader. cbn [fst]. msplit.
+  - destruct (nth_error (g_readers g) r) as [rd|]; [|msplit].
+    destruct (feed _ rd file (g_err g)) as [[[c1 rd1] e1] u]. msplit.
+  - destruct (feed_files _ _ files (g_err g)) as [[[c2 rd2] e2] u]. msplit.
+  - destruct (match src with None => Some 0 | Some r => _ end) as [i|]; [|msplit].
+    destruct (lowlevel false _ file (g_err g)) as [[cell1 e1] rr]. msplit.
+  - pose proof (format_call_any cap fmt (names, n, format) (g_mf g) (g_ms g) (g_err g) Hcap H1 H2 H3 H4) as Hc.
+    cbv zeta in Hc. destruct (memo_call nkey_eqb cap (format_name_f cap fmt) (names, n, format) _) as [[mf1 [ms1 e1]] v].
+    cbn [fst snd] in *. destruct Hc as (Hc1 & Hc2 & (Hc3 & Hc4) & _). msplit.
+  - pose proof (bst_calls_any cap fmt Hcap calls (g_mf g) (g_ms g) (g_err g) H1 H2 H3 H4) as Hc.
+    cbv zeta in Hc. destruct (bst_calls cap fmt calls _) as [[mf1 [ms1 e1]] v].
+    cbn [fst snd] in *. destruct Hc as (Hc1 & Hc2 & (Hc3 & Hc4)). msplit.
+  - msplit.
+Qed.
+
+Lemma step_caches_ok cap fmt g co : 0 < cap -> caches_ok cap fmt g -> caches_ok cap fmt (fst (step cap fmt g co)).
+Proof.
+  intros Hcap Hm. destruct co as [cpt o]. unfold step. destruct cpt.
+  - pose proof (exec_caches_ok cap fmt (with_err (with_err g (clear_stderr (g_err g))) (capture_enter (g_err (with_err g (clear_stderr (g_err g)))))) o Hcap Hm) as H.
+    destruct (exec cap fmt _ o) as [g1 v]. cbn [fst] in *. exact H.
+  - pose proof (exec_caches_ok cap fmt (with_err g (clear_stderr (g_err g))) o Hcap Hm) as H.
+    destruct (exec cap fmt _ o) as [g1 v]. cbn [fst] in *. exact H.
+Qed.
+
+Lemma run_caches_ok cap fmt cos : 0 < cap -> forall g, caches_ok cap fmt g -> caches_ok cap fmt (final cap fmt g cos).
+Proof.
+  intros Hcap. unfold final. induction cos as [|co r IH]; intros g Hm; cbn [run fst]; auto.
+  pose proof (step_caches_ok cap fmt g co Hcap Hm) as Hs.
+  destruct (step cap fmt g co) as [g1 out]. cbn [fst] in Hs. specialize (IH g1 Hs).
+  destruct (run cap fmt g1 r) as [g2 outs]. exact IH.
+Qed.
+
+Lemma caches_ok_G0 cap fmt : caches_ok cap fmt G0.
+Proof. repeat split; cbn; try constructor; try lia; intros k v H; discriminate. Qed.
+
+(* inside capture(): the value of a format.name$ call in any state with well-formed caches *)
+Lemma step_format_name_captured cap fmt g names n format : 0 < cap -> caches_ok cap fmt g ->
+  o_val (snd (step cap fmt g (true, OFormatName names n format))) = map_res_val VStr (pure_fmt fmt (names, n, format)).
+Proof.
+  intros Hcap (H1 & H2 & H3 & H4). unfold step. cbn [exec with_err g_mf g_ms g_err g_heap g_readers].
+  set (e := capture_enter (clear_stderr (g_err g))).
+  pose proof (memo_call_inv nkey_eqb nkey_eqb_eq cap (format_name_f cap fmt) (names, n, format) (g_mf g) (g_ms g, e) Hcap H3) as Hinv.
+  cbv zeta in Hinv. destruct Hinv as (_ & [(v & Hl & Hr) | (Hl & Hr & _)]).
+  - rewrite Hr. cbn [o_val snd]. rewrite (H4 _ _ Hl). reflexivity.
+  - assert (Hp : snd (format_name_f cap fmt (names, n, format) (g_ms g, e)) = pure_fmt fmt (names, n, format)).
+    { apply format_name_f_captured; auto. split; auto. unfold e. cbn. eauto. }
+    destruct (memo_call nkey_eqb cap (format_name_f cap fmt) (names, n, format) (g_mf g, (g_ms g, e))) as [[mf1 [ms1 e1]] v].
+    cbn [snd] in Hr. cbn [o_val snd]. rewrite Hr, Hp. reflexivity.
+Qed.
+
+Lemma format_name_value_in_capture_lemma cap fmt cos names n format : 0 < cap ->
+  o_val (snd (step cap fmt (final cap fmt G0 cos) (true, OFormatName names n format))) =
+  o_val (snd (step cap fmt G0 (true, OFormatName names n format))).
+Proof.
+  intros Hcap. rewrite !step_format_name_captured; auto.
+  - apply caches_ok_G0.
+  - apply run_caches_ok; auto. apply caches_ok_G0.
+Qed.
+
+(* ------------------------------------------------------------------------------------- *)
+(* a whole BST run's format.name$ calls, quiet formatter: history independent *)
+Fixpoint bst_pure (fmt : fmt_fun) (ks : list nkey) : res (list str) :=
+  match ks with
+  | [] => Ok []
+  | k :: r =>
+    match pure_fmt fmt k with
+    | Ok s => match bst_pure fmt r with Ok l => Ok (s :: l) | PyErr c l => PyErr c l | Crash => Crash | OutOfFuel => OutOfFuel end
+    | PyErr c l => PyErr c l
+    | Crash => Crash
+    | OutOfFuel => OutOfFuel
+    end
+  end.
+
+Lemma bst_calls_value cap fmt : 0 < cap -> quiet fmt -> forall ks mf ms e,
+  memo_ok cap ms -> valid str_eqb split_name_list ms -> memo_ok cap mf -> valid nkey_eqb (pure_fmt fmt) mf ->
+  let r := bst_calls cap fmt ks (mf, (ms, e)) in
+  snd r = bst_pure fmt ks /\ snd (snd (fst r)) = e.
+Proof.
+  intros Hcap Hq. induction ks as [|k r IH]; intros mf ms e H1 H2 H3 H4; cbv zeta; cbn [bst_calls bst_pure fst snd]; auto.
+  pose proof (format_call_spec cap fmt k mf ms e Hcap Hq H1 H2 H3 H4) as Hc. cbv zeta in Hc.
+  destruct (memo_call nkey_eqb cap (format_name_f cap fmt) k (mf, (ms, e))) as [[mf1 [ms1 e1]] v].
+  cbn [fst snd] in Hc. destruct Hc as (Hv & Hc1 & Hc2 & (Hc3 & Hc4 & Hc5)). cbn [fst snd] in *. subst e1 v.
+  destruct (pure_fmt fmt k) as [s| | |]; cbn [lift_res fst snd]; auto.
+  specialize (IH mf1 ms1 e Hc3 Hc4 Hc1 Hc2). cbv zeta in IH.
+  destruct (bst_calls cap fmt r (mf1, (ms1, e))) as [[mf2 [ms2 e2]] rr]. cbn [fst snd] in *.
+  destruct IH as (IH1 & IH2). subst rr e2.
+  destruct (bst_pure fmt r); cbn [lift_res fst snd]; auto.
+Qed.
+
+Lemma step_bst_out cap fmt g c calls : 0 < cap -> quiet fmt -> memos_ok cap fmt g ->
+  snd (step cap fmt g (c, OBstRun calls)) =
+  mkOut (map_res_val VStrs (bst_pure fmt calls)) [] (if c then Some [] else None).
+Proof.
+  intros Hcap Hq (H1 & H2 & H3 & H4). unfold step. destruct c; cbn [exec with_err g_mf g_ms g_err g_heap g_readers].
+  - pose proof (bst_calls_value cap fmt Hcap Hq calls (g_mf g) (g_ms g) (capture_enter (clear_stderr (g_err g))) H1 H2 H3 H4) as Hc.
+    cbv zeta in Hc. destruct (bst_calls cap fmt calls _) as [[mf1 [ms1 e1]] v].
+    cbn [fst snd] in *. destruct Hc as (Hv & He). subst. reflexivity.
+  - pose proof (bst_calls_value cap fmt Hcap Hq calls (g_mf g) (g_ms g) (clear_stderr (g_err g)) H1 H2 H3 H4) as Hc.
+    cbv zeta in Hc. destruct (bst_calls cap fmt calls _) as [[mf1 [ms1 e1]] v].
+    cbn [fst snd] in *. destruct Hc as (Hv & He). subst. reflexivity.
+Qed.
+
+Lemma bst_run_history_independent_lemma cap fmt cos c calls : 0 < cap -> quiet fmt ->
+  snd (step cap fmt (final cap fmt G0 cos) (c, OBstRun calls)) = snd (step cap fmt G0 (c, OBstRun calls)).
+Proof.
+  intros Hcap Hq. rewrite !step_bst_out; auto.
+  - apply (memos_ok_G0 cap fmt errs0).
+  - apply run_memos_ok; auto. apply (memos_ok_G0 cap fmt errs0).
+Qed.
